@@ -70,6 +70,16 @@ func x07Client(f *verifx.VaultFake) *vaultClient {
 	return &vaultClient{addr: f.Addr(), token: "x07-token"}
 }
 
+// x07Idle closes the idle connections of a history's Vault client (every history has its own transport).
+func x07Idle(vc *vaultClient) {
+	vc.mu.Lock()
+	c := vc.client
+	vc.mu.Unlock()
+	if c != nil {
+		c.CloneConfig().HttpClient.CloseIdleConnections()
+	}
+}
+
 func x07Hash(s string) uint32 { h := fnv.New32a(); h.Write([]byte(s)); return h.Sum32() }
 
 // x07Handshake: one real TLS handshake; leaf = the certificate presented, nil = refused.
@@ -110,7 +120,9 @@ func x07Handshake(cfg *tls.Config, sni string) (leaf *x509.Certificate, infra er
 // ---------------------------------------------------------------- store hook
 
 type x07Watch struct {
-	fake *verifx.VaultFake
+	fake    *verifx.VaultFake
+	block   chan struct{} // probe only: the goroutine that stores snapshots is held here
+	entered chan struct{}
 }
 
 var x07ByTok sync.Map // fake token -> *x07Watch
@@ -138,6 +150,13 @@ func x07Hook(_ *Store, certs []tls.Certificate) {
 	}
 	sort.Ints(ids)
 	w.fake.Note(verifx.VaultEvent{Ev: "Install", IDs: ids})
+	if w.block != nil {
+		select {
+		case w.entered <- struct{}{}:
+		default:
+		}
+		<-w.block
+	}
 }
 
 func x07Has(ids []int, id int) bool {
@@ -263,6 +282,7 @@ func x07PlayKV(h x07AHist, hi int, version int, st *x07AStats) bool {
 		x07InfraErr("kv: vault client: %v", err)
 		return false
 	}
+	defer x07Idle(vc)
 	fake.Hold("mounts", true)
 	src := &VaultSource{Client: vc, CertPath: fake.CertPath, Refresh: x07Refresh}
 	pump := &x07Pump{inner: src, out: make(chan []tls.Certificate)}
@@ -426,6 +446,7 @@ func x07NewPKI(strict bool) (*x07PKIRun, error) {
 }
 
 func (r *x07PKIRun) close() {
+	x07Idle(r.src.Client)
 	r.fake.Close()
 	x07ByTok.Delete(r.fake.Tok)
 }
@@ -468,8 +489,9 @@ func x07PlayPKI(h x07BHist, hi int, st *x07BStats) string {
 	}
 	defer r.close()
 	fake := r.fake
-	stall := verifx.WatchStalls()
-	defer stall.Stop()
+	stallWatch := verifx.WatchStalls()
+	stalled := sync.OnceValue(func() time.Duration { return stallWatch.Stop() }) // judged once, when a time bound is missed
+	defer stalled()
 	if hasRound {
 		fake.SetIssueTTL(2 * time.Second)
 		// begin shortly after a full second: NotAfter has a resolution of one second
@@ -633,7 +655,7 @@ func x07PlayPKI(h x07BHist, hi int, st *x07BStats) string {
 				return true
 			})
 			if !okAll {
-				if s := stall.Stop(); s > 200*time.Millisecond {
+				if s := stalled(); s > 200*time.Millisecond {
 					atomic.AddInt64(&st.voided, 1)
 					return "void"
 				}
@@ -641,9 +663,17 @@ func x07PlayPKI(h x07BHist, hi int, st *x07BStats) string {
 					e.IDs, deadline.Format("15:04:05"), time.Since(deadline), held(fake.Log()), x07PKIRefresh)
 				return "ok"
 			}
-			// lower bound: not earlier than refresh before the expiry (x3 margin)
+			// "re-issued <refresh> before they expire": not after the expiry, and (lower bound, x3 margin) not much earlier than refresh before it
 			for _, x := range fake.Log() {
 				if x.Ev == "Hold" && x.Kind == "issue" {
+					if late := x.At.Sub(deadline); late > 0 {
+						if s := stalled(); s > 200*time.Millisecond {
+							atomic.AddInt64(&st.voided, 1)
+							return "void"
+						}
+						report(pos, "reissue-late", "the re-issue request for %s arrived %v AFTER the certificate had expired (refresh: %v before the expiry)", x.Name, late, x07PKIRefresh)
+						return "ok"
+					}
 					if early := deadline.Sub(x.At); early > 3*x07PKIRefresh+time.Second {
 						report(pos, "reissue-early", "re-issue request %v before the expiry, refresh is %v", early, x07PKIRefresh)
 					}
@@ -758,6 +788,7 @@ func x07PlayToken(h x07CHist, hi int) (string, map[string]any) {
 		x07InfraErr("token: client: %v", err)
 		return "infra", nil
 	}
+	defer x07Idle(vc)
 	want := h.C
 	horizon := 0
 	for _, q := range want {
@@ -798,8 +829,8 @@ func x07PlayToken(h x07CHist, hi int) (string, map[string]any) {
 	}
 	mism := ""
 	for i, q := range want {
-		if h.Corrupt && i == len(want)-1 {
-			q.OK = !q.OK
+		if h.Corrupt && i == 0 {
+			q.Req = "renew"
 		}
 		if i >= len(got) {
 			mism = fmt.Sprintf("request %d (%s at %v) never arrived", i+1, q.Req, time.Duration(q.At)*x07Sec/2)
@@ -926,6 +957,31 @@ func x07Probe() map[string]any {
 			r.close()
 			break
 		}
+		r.close()
+	}
+	// AsyncInstall (reproduction): while the goroutine that stores the snapshots is busy, a certificate
+	// that has just been issued and cached is not found by the next handshake for the same name
+	if r, err := x07NewPKI(true); err == nil {
+		v, _ := x07ByTok.Load(r.fake.Tok)
+		w := v.(*x07Watch)
+		w.block, w.entered = make(chan struct{}), make(chan struct{}, 1)
+		x07Handshake(r.cfg, "a"+x07Domain)
+		select {
+		case <-w.entered:
+			n0 := r.fake.LogLen()
+			l1, _ := x07Handshake(r.cfg, "b"+x07Domain)
+			l2, _ := x07Handshake(r.cfg, "b"+x07Domain)
+			n := 0
+			for _, e := range r.fake.Log()[n0:] {
+				if e.Ev == "Req" && e.Kind == "issue" && e.Name == "b"+x07Domain {
+					n++
+				}
+			}
+			out["DupIssueWindow"] = n > 1 && l1 != nil && l2 != nil
+			out["DupIssueRequests"] = n
+		case <-time.After(x07Wait):
+		}
+		close(w.block)
 		r.close()
 	}
 	// ShortTTLSpin: a certificate that lives shorter than the refresh floor
